@@ -38,6 +38,8 @@ def pub_parents(p):
         ("parsed-slip132-xpub", Pub.parse(rp.xpub(R.VERSION_OF[("pub", p["testnet"], 84 if p["k"] & 1 else 49)]), testnet=p["testnet"])),
         # built from a mutable buffer the caller keeps
         ("constructed-bytearray", Pub(key=bytearray(rp.sec()), **dict(kw, chain_code=bytearray(p["c"])))),
+        # an application's own public node class, loaded through the inherited parser
+        ("subclass-parsed", type("AppPubNode", (Pub,), {}).parse(rp.xpub(vpub), testnet=p["testnet"])),
         # the root of a watch-only wallet built from the string (the network comes from the version prefix)
         ("watch-only-wallet-root", __import__("btc_hd_wallet.base_wallet", fromlist=["BaseWallet"]).BaseWallet.from_extended_key(rp.xpub(vpub)).master),
     ]
@@ -118,6 +120,21 @@ def check_path(case, ctx):
                     raise Violation("C02/path/raised", "constructed node: public ckd(%d) raised %r" % (i, cur))
                 compare_pub("C02/constructed-with-parent", "below a node constructed with parent=<node>, level %d" % (lvl + 1),
                             cur, refs[lvl], p["testnet"], prv_nodes[lvl])
+    if path:
+        # one caller-owned buffer refilled in place for two successive parents (no other library call in between)
+        Prv, Pub = _impl()
+        kw_ = dict(chain_code=p["c"], index=p["index"], depth=p["depth"], testnet=p["testnet"], parent_fingerprint=p["pfp"])
+        buf = bytearray(refs[0].sec())
+        first = Pub(key=buf, **kw_)
+        call(first.generate_children, (path[0], path[0] + 1))
+        buf[:] = rp.sec()
+        second = Pub(key=buf, **kw_)
+        st_, kids = call(second.generate_children, (path[0], path[0] + 1))
+        if st_ == "exc" or len(kids) != 1:
+            raise Violation("C02/path/raised", "parent built from a refilled bytearray: generate_children gave %r" % (kids,))
+        compare_pub("C02/refilled-buffer", "second parent built from one bytearray refilled in place, child %d" % path[0], kids[0], refs[0],
+                    p["testnet"], prv_nodes[0])
+        ctx.count("refilled-buffer-parents")
     if not case.get("_sibling") and p["k"] % 4 == 0:
         # bulk requests whose exclusive END is 2^31 (or beyond with a step): every generated index is still normal
         for iv in ((H - 2, H), (H - 1, H), (H - 3, H + 1, 2) if p["k"] % 8 == 0 else (H - 2, H)):
